@@ -127,11 +127,42 @@ def window_rule(rep, cfg, path, out):
             e = t.args[1].args[0].args[0]
             if e > 0 and e & (e - 1) == 0:
                 pows.append(e.bit_length() - 1)
-    # distinct chain links: 8,8,8,8,7
-    chain = sorted(pows)
-    distinct_levels = len({t for t in Tm.subterms(allt) if t.op == "pow" and t.args[1].op == "bigint_of" and Tm.is_lit(t.args[1].args[0]) and t.args[1].args[0].args[0] in (128, 256)})
-    rep.ob("WINDOW/%s/pow-chain" % cfg.name, distinct_levels == 5 and sorted(set(pows)) == [7, 8],
-           "x5 -> x0 must be five successive powers (2^8 four times, 2^7 once: 39 = N - W squarings); found %d chain links with log2 exponents %s" % (distinct_levels, sorted(set(pows))),
+    # squaring towers: a node is root^(2^j) when it is reached from root by powers with power-of-two exponents and squarings
+    # (pow(v, 2^j), v*v, v.square()); the levels j at which a tower is *used* by anything but its own next step are the x_k
+    tower = {}
+
+    def tw(u):
+        if id(u) in tower:
+            return tower[id(u)]
+        r = (u, 0)
+        if u.op == "pow" and u.args[1].op == "bigint_of" and Tm.is_lit(u.args[1].args[0]):
+            e = u.args[1].args[0].args[0]
+            if isinstance(e, int) and e > 1 and e & (e - 1) == 0:
+                b, j = tw(u.args[0])
+                r = (b, j + e.bit_length() - 1)
+        elif u.op == "mul" and len(u.args) == 2 and u.args[0] is u.args[1]:
+            b, j = tw(u.args[0])
+            r = (b, j + 1)
+        tower[id(u)] = r
+        return r
+    used = {}
+    nodes = Tm.subterms(allt)
+    for par in nodes:
+        for ch in par.args:
+            if not isinstance(ch, Tm.T):
+                continue
+            b, j = tw(ch)
+            if j == 0:
+                continue
+            pb, pj = tw(par)
+            if pb is b and pj > j:
+                continue        # the tower's own next step
+            used.setdefault(b, set()).add(j)
+    tall = {b: sorted(js) for b, js in used.items() if max(js) >= 7}
+    want_levels = [8, 16, 24, 32, N_ - 8]
+    rep.ob("WINDOW/%s/pow-chain" % cfg.name, len(tall) == 1 and list(tall.values())[0] == want_levels,
+           "x4..x0 must be x5^(2^8), x5^(2^16), x5^(2^24), x5^(2^32), x5^(2^%d) (39 = N - W squarings in all); squaring towers and the levels used: %s" % (
+               N_ - 8, [(Tm.show(b, maxdepth=2), js) for b, js in tall.items()]),
            where=cfg.where(path))
     sexp = [t for t in Tm.subterms(allt) if t.op == "pow" and t.args[1].op == "bigint_of" and Tm.is_lit(t.args[1].args[0]) and t.args[1].args[0].args[0] == (1 << N_) - 1]
     rep.ob("WINDOW/%s/s-exponent" % cfg.name, len(sexp) >= 1, "den must be raised to 2^N - 1 = 2^%d - 1" % N_, where=cfg.where(path), nontrivial=False)
@@ -223,6 +254,21 @@ def tables_rule(rep, cfg):
                                 mults.add(e.args[1].args[0])
                             elif e.op == "imul" and e.args[1] is item and Tm.is_lit(e.args[0]):
                                 mults.add(e.args[0].args[0])
+                if not mults and len(accs) == 2:
+                    # rows by recurrence: (table, entry) = ([], 1); per nu: table.push(entry); entry *= G^c  -  row nu is G^(nu*c)
+                    for iv in (0, 1):
+                        vec, ent = accs[iv], accs[1 - iv]
+                        if inits[iv].op == "empty" and inits[1 - iv] is felem("fq", 1) and nexts[iv] is mk("vec_push", vec, ent) \
+                                and nexts[1 - iv].op == "mul" and ent in nexts[1 - iv].args:
+                            st = [x for x in nexts[1 - iv].args if x is not ent]
+                            if len(st) == 1 and st[0].op == "pow" and st[0].args[0] is gv:
+                                e = st[0].args[1]
+                                if e.op == "bigint_of":
+                                    e = e.args[0]
+                                if e.op == "convert":
+                                    e = e.args[2]
+                                if Tm.is_lit(e) and isinstance(e.args[0], int):
+                                    mults.add(e.args[0])
                 if mults:
                     res.append((rng.get("start"), rng.get("end"), mults, s_))
         return res
